@@ -39,6 +39,7 @@ type fcase struct {
 	Burst    int    // udpburst: number of announces (distinct info-hashes) held by the tracker and answered in ONE burst
 	Dup      int    // udpburst: every reply is sent 1+Dup times
 	Shuffle  bool   // udpburst: replies are sent in another order than the requests arrived
+	CID      uint64 // udpburst: connection id of the connect reply (the second wave runs over that live connection)
 	Mangle   string // UDP: dup | wrongtx-first | wrongtx-only | short | connect-short | connect-wrongaction | connect-wrongtx | connect-dup
 }
 
@@ -159,13 +160,15 @@ func fuzzCases(seed int64, nrand int) []fcase {
 	u("connect-dup", good, "connect-dup", false)
 	u("connect-error", good, "connect-error", true)
 	// several announces sharing one UDP socket are answered back-to-back, each reply with content specific to its info-hash
-	for _, n := range []int{2, 3, 4, 8, 16, 32} {
+	cids := []uint64{0x1234, 0, 0xFFFFFFFFFFFFFFFF, 0x8000000000000000} // BEP 15 reserves no connection id value
+	for j, n := range []int{2, 3, 4, 8, 16, 32} {
 		for _, d := range []int{0, 2} {
-			cs = append(cs, fcase{Name: fmt.Sprintf("burst-n%d-dup%d", n, d), TP: "udpburst", Burst: n, Dup: d, Shuffle: n%3 == 0})
+			cs = append(cs, fcase{Name: fmt.Sprintf("burst-n%d-dup%d", n, d), TP: "udpburst", Burst: n, Dup: d, Shuffle: n%3 == 0, CID: cids[(j+d/2)%len(cids)]})
 		}
 	}
 	for i := 0; i < nrand/20; i++ {
-		cs = append(cs, fcase{Name: fmt.Sprintf("burst-rand%d", i), TP: "udpburst", Burst: 2 + rng.Intn(30), Dup: rng.Intn(4), Shuffle: rng.Intn(2) == 0})
+		cs = append(cs, fcase{Name: fmt.Sprintf("burst-rand%d", i), TP: "udpburst", Burst: 2 + rng.Intn(30), Dup: rng.Intn(4), Shuffle: rng.Intn(2) == 0,
+			CID: append(cids, rng.Uint64())[rng.Intn(len(cids)+1)]})
 	}
 	for i := 0; i < nrand; i++ {
 		b := append([]byte{}, good...)
@@ -404,7 +407,7 @@ func runBurst(tm *trackermanager.TrackerManager, i int, c fcase) fres {
 			}
 			switch action {
 			case 0:
-				out := append(append(be32(0), buf[12:16]...), 0, 0, 0, 0, 0, 0, 0x12, 0x34)
+				out := binary.BigEndian.AppendUint64(append(be32(0), buf[12:16]...), c.CID)
 				conn.WriteToUDP(out, from)
 			case 1, 99:
 				if action == 1 {
